@@ -27,15 +27,19 @@ type MDB struct {
 }
 
 type Model struct {
-	DBs   map[string]*MDB
-	Order []string // creation order (lower-case names)
-	Cur   string   // selected database ("" = none)
+	// Ghosts: directories under data/ that are no databases (left by a process
+	// that died right after the mkdir of CREATE DATABASE): listed by SHOW
+	// DATABASES, not selectable, and CREATE DATABASE of that name succeeds
+	Ghosts []string
+	DBs    map[string]*MDB
+	Order  []string // creation order (lower-case names)
+	Cur    string   // selected database ("" = none)
 }
 
 func NewModel() *Model { return &Model{DBs: map[string]*MDB{}} }
 
 func (m *Model) Clone() *Model {
-	c := &Model{DBs: map[string]*MDB{}, Order: append([]string(nil), m.Order...), Cur: m.Cur}
+	c := &Model{DBs: map[string]*MDB{}, Order: append([]string(nil), m.Order...), Cur: m.Cur, Ghosts: append([]string(nil), m.Ghosts...)}
 	for k, d := range m.DBs {
 		nd := &MDB{Name: d.Name, MaxID: d.MaxID}
 		for _, t := range d.Tables {
@@ -261,6 +265,12 @@ func (m *Model) Predict(s *Stmt) *Expect {
 		return &Expect{OK: true, FailAt: -1, apply: func(m *Model, n int) {
 			m.DBs[name] = &MDB{Name: name}
 			m.Order = append(m.Order, name)
+			for i, g := range m.Ghosts {
+				if g == name {
+					m.Ghosts = append(m.Ghosts[:i:i], m.Ghosts[i+1:]...)
+					break
+				}
+			}
 		}}
 	case KUse:
 		name := strings.ToLower(s.DB)
